@@ -2,6 +2,7 @@ package rigv
 
 import (
 	"fmt"
+	"math/rand"
 	"sort"
 	"strings"
 	"sync"
@@ -458,7 +459,7 @@ func TestC12race(t *testing.T) {
 		seed := cfg.CaseSeed("C12race", i)
 		rig.RunCase(t, seed, rig.Opts{}, func(e *rig.Env) {
 			rr := e.Rand
-			lr := &lockedRand{r: rr}
+			lr := &lockedRand{r: rand.New(rand.NewSource(seed ^ 0x7e57))}
 			kind := []string{"topic", "subscription", "snapshot"}[i%3]
 			mkTopic(e, "projects/p/topics/base")
 			mkSub(e, &pubsubpb.Subscription{Name: "projects/p/subscriptions/base", Topic: "projects/p/topics/base"})
